@@ -3,12 +3,15 @@
 # Applies a seeded change to /repo, runs the named checks, and ALWAYS restores /repo afterwards.
 set -u
 PATCH="$1"; TIER="$2"; shift 2
-cd /repo || exit 2
+# SEED_REPO / SEED_VERIF: a shadow copy (git worktree of /repo + copy of /verif whose Cargo.toml points at it) can be used
+# while something else (e.g. a long sweep) needs /repo untouched
+REPO="${SEED_REPO:-/repo}"; VERIF="${SEED_VERIF:-/verif}"
+cd "$REPO" || exit 2
 if [ -n "$(git status --porcelain -- src Cargo.toml)" ]; then echo "refusing: /repo has local changes" >&2; exit 2; fi
 git apply "$PATCH" || { echo "patch does not apply to /repo" >&2; exit 2; }
-trap 'git -C /repo checkout -q -- . ' EXIT
+trap 'git -C "$REPO" checkout -q -- . ' EXIT
 for C in "$@"; do
-  OUT=$(cd /verif && ./check "$C" "$TIER" 2>&1); RC=$?
+  OUT=$(cd "$VERIF" && ./check "$C" "$TIER" 2>&1); RC=$?
   NV=$(echo "$OUT" | grep -c "^VIOLATION property=")
   CATS=$(echo "$OUT" | grep "distinct violation keys per category" | sed 's/.*category: //' | head -1)
   LAST=$(echo "$OUT" | grep -E "tier=|MACHINERY|ENGINE" | tail -1 | cut -c1-200)
